@@ -86,7 +86,7 @@ Section Pending.
   Theorem C07_custom_property_kept name lname value imp :
     prefix "--" name = true -> not_print name = false -> other_expander name = None ->
     remove_whitespace value <> [] ->
-    full_pp [IDecl name lname value imp] = Ok [(underscore name, VRaw (remove_whitespace value), imp)].
+    full_pp [IDecl name lname value imp] = Ok [(style_key name, VRaw (remove_whitespace value), imp)].
   Proof. exact (custom_property_kept V0 known supported prop_validator is_color is_border_width is_border_style
                   is_column_width is_column_count is_flex_basis flex_factor other_expander
                   not_print proprietary unstable name lname value imp). Qed.
@@ -97,7 +97,7 @@ Section Pending.
     str_in n FOUR_SIDES = false -> str_in n BORDER_SIDES = false ->
     str_in n ["border"; "border-radius"; "columns"; "flex"] = false -> other_expander n = None ->
     any_var (remove_whitespace value) = true ->
-    full_pp [IDecl name lname value imp] = Ok [(underscore n, VPendingProp (remove_whitespace value) n, imp)].
+    full_pp [IDecl name lname value imp] = Ok [(style_key n, VPendingProp (remove_whitespace value) n, imp)].
   Proof. exact (var_takes_pending_path V0 known supported prop_validator is_color is_border_width is_border_style
                   is_column_width is_column_count is_flex_basis flex_factor other_expander
                   not_print proprietary unstable name lname value imp n). Qed.
@@ -106,7 +106,7 @@ Section Pending.
     resolve_name not_print proprietary unstable name lname = Some n ->
     str_in n FOUR_SIDES = true -> any_var (remove_whitespace value) = true ->
     full_pp [IDecl name lname value imp] =
-    Ok (map (fun ln => (underscore ln, VPendingExp (remove_whitespace value) n, imp)) (four_names n)).
+    Ok (map (fun ln => (style_key ln, VPendingExp (remove_whitespace value) n, imp)) (four_names n)).
   Proof. exact (var_in_four_sides_is_pending V0 known supported prop_validator is_color is_border_width
                   is_border_style is_column_width is_column_count is_flex_basis flex_factor other_expander
                   not_print proprietary unstable name lname value imp n). Qed.
@@ -273,7 +273,8 @@ Print Assumptions C07_source_equal_lengths_interchangeable.
 
 (* ---- 5. var() (css/__init__.py resolve_var + ComputedStyle.__missing__) ----
    Subst env key fallback var_name: textual substitution (model/C07Var.v); the implementation stores --a-b under
-   `__a_b` (impl_key) and takes as fallback the arguments after the name without their commas (impl_fallback). *)
+   `__a-b` (impl_key: the exact name, `--` replaced by `__`) and takes as fallback the arguments after the first
+   comma, commas included (impl_fallback). *)
 Theorem C07_var_is_substitution env fuel tokens r :
   solved_tokens env fuel tokens = Some r ->
   SubstL env impl_key impl_fallback impl_var_name [] tokens r.
@@ -293,7 +294,7 @@ Print Assumptions C07_var_references_independent.
 
 (* a reference to a defined property does not look at its fallback *)
 Theorem C07_var_fallback_unused_when_defined env fuel ps n ln v lv fb1 fb2 :
-  env (underscore v) <> [] ->
+  env (var_key v) <> [] ->
   has_var (TFunc n ln (TIdent v lv :: TLit "," :: fb1)) = true ->
   has_var (TFunc n ln (TIdent v lv :: TLit "," :: fb2)) = true -> String.eqb ln "var" = true ->
   resolve_var env fuel ps (TFunc n ln (TIdent v lv :: TLit "," :: fb1)) =
@@ -309,17 +310,38 @@ Theorem C07_var_fuel_sufficient env rk n tokens :
 Proof. exact (fun H => solved_tokens_fuel_sufficient env rk H n tokens). Qed.
 Print Assumptions C07_var_fuel_sufficient.
 
-(* where the implementation is NOT substitution (each replayed on the implementation by the stream var-direct
-   and the render streams): a reference back into a cycle is erased and the fallback never used (CSS: the whole
-   cycle is invalid); the commas of a fallback are lost; --a-b and --a_b are one property *)
+(* a reference to an undefined property is its own fallback ... *)
+Theorem C07_var_fallback_used_when_undefined env fuel ps n ln v lv fb :
+  env (var_key v) = [] -> str_in (var_key v) ps = false ->
+  has_var (TFunc n ln (TIdent v lv :: TLit "," :: fb)) = true -> String.eqb ln "var" = true ->
+  resolve_var env (S fuel) ps (TFunc n ln (TIdent v lv :: TLit "," :: fb)) =
+  match subst_each (resolve_var env fuel ps) (remove_whitespace fb) with Some l => Some (RToks l) | None => None end.
+Proof. exact (fallback_used_when_undefined env fuel ps n ln v lv fb). Qed.
+Print Assumptions C07_var_fallback_used_when_undefined.
+
+(* ... and the fallback is the textual remainder after the first comma, commas included: the grammar's
+   var( <custom-property-name> [, <declaration-value>]? ) (css_fallback), whatever the white space around the name *)
+Theorem C07_var_fallback_is_textual_remainder w1 name w2 rest :
+  Forall (fun t => is_ws t = true) w1 -> Forall (fun t => is_ws t = true) w2 ->
+  is_ws name = false -> is_comma name = false ->
+  impl_fallback (w1 ++ name :: w2 ++ TLit "," :: rest) = css_fallback (w1 ++ name :: w2 ++ TLit "," :: rest) /\
+  impl_fallback (w1 ++ name :: w2 ++ TLit "," :: rest) = remove_whitespace rest.
+Proof. exact (fallback_is_textual_remainder w1 name w2 rest). Qed.
+Print Assumptions C07_var_fallback_is_textual_remainder.
+
+(* distinct names are distinct properties: the key under which a custom property is stored and looked up keeps
+   its exact name *)
+Theorem C07_var_distinct_names_distinct_properties x y :
+  prefix "--" x = true -> prefix "--" y = true -> impl_key x = impl_key y -> x = y.
+Proof. exact (distinct_names_distinct_properties x y). Qed.
+Print Assumptions C07_var_distinct_names_distinct_properties.
+
+(* where the implementation is NOT substitution (replayed on the implementation by var-direct and the render
+   streams): a reference back into a cycle is erased and the fallback never used (CSS: the whole cycle is invalid,
+   finding F180) *)
 Theorem C07_var_refuted :
-  (let env := fun k => if String.eqb k "__x" then [TAtom 1; VAR "--x" []] else [] in
-   solved_tokens env 5 [VAR "--x" [TLit ","; TAtom 7]] = Some [TAtom 1]) /\
-  (let env := fun _ : string => @nil tok in
-   let args := [TIdent "--u" "--u"; TLit ","; TWs; TIdent "a" "a"; TLit ","; TWs; TIdent "b" "b"] in
-   resolve_var env 2 [] (TFunc "var" "var" args) = Some (RToks [TIdent "a" "a"; TIdent "b" "b"]) /\
-   css_fallback args = [TIdent "a" "a"; TLit ","; TIdent "b" "b"]) /\
-  (impl_key "--a-b" = impl_key "--a_b" /\ "--a-b" <> "--a_b").
+  let env := fun k => if String.eqb k "__x" then [TAtom 1; VAR "--x" []] else [] in
+  solved_tokens env 5 [VAR "--x" [TLit ","; TAtom 7]] = Some [TAtom 1].
 Proof. exact var_refuted. Qed.
 Print Assumptions C07_var_refuted.
 
